@@ -724,3 +724,88 @@ def oracle_c05_any(scn, res):
     v = [x for x in check_ephemeral(scn, res) if '/sync-stream-changed/' not in x['signature']]
 
     return v + check_sets(scn, res, restarts=True) + check_order(scn, res), outcome(res)
+
+
+# ---- C06: liveness after a fault -------------------------------------------------------------------------------------------------
+
+def check_liveness(scn, res):
+    viols = []
+    fam   = family(scn)
+    fs    = fdict(scn)
+    bound = scn.get('c06_bound', 1500)
+
+    def bad(kind, what, d=None):
+        viols.append({'signature': f'C06/{kind}/{fam}', 'what': f'[{scn.get("name")}] {what}', 'detail': d})
+
+    kills = [e for e in res.log if e['ev'] == 'kill']
+
+    if not kills:
+        return viols
+
+    k     = kills[0]
+    t_rec = k['t'] + (k['restart'] or 0)
+    dead  = {k['f']} if k['restart'] is None else set()
+    end   = res.now
+
+    # live synchronized sinks = filters with at least one synchronized source whose every upstream path is alive
+    def alive(name, seen=()):
+        if name in dead:
+            return False
+
+        return all(alive(up, seen + (name,)) for up, eph, _, _ in sources_of(fs[name]) if eph == 0)
+
+    sinks = [f['name'] for f in scn['filters'] if f.get('sources') and any(e == 0 for _, e, _, _ in sources_of(f)) and alive(f['name'])]
+    seen  = {}
+
+    for e in res.log:
+        if e['ev'] == 'process' and e['inp'] and e['f'] in sinks:
+            new = False
+
+            for v in e['inp'].values():
+                key = (e['f'], v['o'], v['i'], v['seq'])
+
+                if key not in seen:
+                    seen[key] = e['t']
+                    new = True
+
+            if new:
+                seen.setdefault(('times', e['f']), []).append(e['t'])
+
+    required_wait = {}
+
+    for name in sinks:
+        times = [t for t in seen.get(('times', name), []) if t > t_rec]
+        prev  = t_rec
+
+        if end < t_rec + bound:
+            continue     # horizon too early to judge (cannot happen with after_ms)
+
+        for t in times + [end]:
+            if t - prev > bound and prev + bound <= end:
+                bad('no-new-frame-within-bound', f'after {k["f"]} was killed at {k["t"]} ms (restart {"never" if k["restart"] is None else "at %d ms" % t_rec}), '
+                    f'live sink {name} processed no new frame between {prev} and {t} ms (bound {bound} ms; run ended at {end} ms)',
+                    {'sink': name, 'times': times[:30]})
+                break
+
+            prev = t
+
+    # a publisher whose required output is missing publishes nothing until it is back
+    victim = fs[k['f']]
+
+    if k['restart']:
+        for f in scn['filters']:
+            req = (f.get('config') or {}).get('outputs_required')
+
+            if req and k['f'] in [r.strip() for r in req.split(',')]:
+                pubs = [w for w in res.wire if w[1] == 'pub' and w[3][0] == 'pub' and w[3][1] == f['name'] and (w[3][2] or 0) >= 0
+                        and w[3][3] == '//' and k['t'] < w[0] < t_rec]
+
+                if len(pubs) > 1:     # one publish may answer the request that was outstanding when the consumer died (a hard kill is silent)
+                    bad('published-without-required-output', f'{f["name"]} published ids {[w[3][2] for w in pubs][:6]} while its required output '
+                        f'{k["f"]} was down ({k["t"]}..{t_rec} ms)')
+
+    return viols
+
+
+def oracle_c06(scn, res):
+    return check_liveness(scn, res) + check_order(scn, res) + check_sets(scn, res, restarts=True), outcome(res)
